@@ -24,9 +24,13 @@ GroupsWellFormed == \A m \in Schema[c].om \cup Schema[c].rm : \A a \in m :
                        LET i == AttrByName(c, a) IN i # 0 /\ ~IsList(A(i)) /\ ~A(i).req /\ A(i).k # "unsup"
 \* groups declared anywhere in the MRO are in force in the class
 GroupsInForce == Schema[c].om = Schema[c].omf /\ Schema[c].rm = Schema[c].rmf
-\* the writer puts all list members at the first list child: no non-list child may lie between two list children
-\* (unsupported children are never written, so they may)
-ListChildrenAdjacent == \A i, j \in 1..N : (i < j /\ IsList(A(i)) /\ IsList(A(j))) => \A k \in i..j : IsList(A(k)) \/ A(k).k = "unsup"
+\* the writer puts list members where the RUN of adjacent list children they belong to starts (unsupported children are
+\* never written and do not separate a run): two list children separated by a written child must hold different classes,
+\* and repeated data elements cannot be told apart by class at all
+SameRun(i, j) == \A k \in i..j : IsList(A(k)) \/ A(k).k = "unsup"
+ListRunsTellMembersApart ==
+  \A i, j \in 1..N : (i < j /\ IsList(A(i)) /\ IsList(A(j)) /\ ~SameRun(i, j)) =>
+     (A(i).k = "lagg" /\ A(j).k = "lagg" /\ A(i).cls # A(j).cls)
 \* repeated data elements need the ElementList machinery
 ListElementsInElementList == (\E i \in 1..N : A(i).k = "lelem") => Schema[c].elist
 Emit == PrintT("MIN " \o ToJson([cls |-> c, doc |-> MinDoc(c)]))
